@@ -1,10 +1,262 @@
-"""Kani lane (filled in below)."""
-PROP_HARNESSES = {}
+"""Kani lane: bit-precise harnesses appended (as a #[cfg(kani)] child module) to a scratch copy of /repo.
+
+/verif/kani/<module>.rs holds the harness bodies; a comment line
+    // @harness <fn name> props=C16,C10 kind=complete|bounded(...) tier=quick|thorough
+declares each one.  `complete` = loop-free, every value kani::any(): a proof over the full input space of that
+function.  `bounded(...)` = a ring-buffer function with a compile-time period bound: a bounded stand-in, labelled as
+such and never counted as proved beyond its bound.
+"""
+import hashlib
+import json
+import os
+import re
+import shutil
+import subprocess
+import sys
+import tempfile
+import time
+
+HERE = os.path.dirname(os.path.dirname(os.path.abspath(__file__)))
+KDIR = os.path.join(HERE, 'kani')
+REPO = os.environ.get('VERIF_REPO', '/repo')
+CACHE = os.path.join(HERE, '.cache', 'kani')
+
+HARNESS_RE = re.compile(r'//\s*@harness\s+(\w+)\s+props=([\w,]+)\s+kind=(\S+)(?:\s+tier=(\w+))?')
+
+
+def harness_table():
+    t = {}
+    if not os.path.isdir(KDIR):
+        return t
+    for fn in sorted(os.listdir(KDIR)):
+        if not fn.endswith('.rs'):
+            continue
+        mod = fn[:-3]
+        txt = open(os.path.join(KDIR, fn)).read()
+        lines = txt.split('\n')
+        for i, line in enumerate(lines):
+            m = HARNESS_RE.search(line)
+            if m:
+                doc = []
+                j = i + 1
+                while j < len(lines) and lines[j].startswith('//'):
+                    doc.append(lines[j][2:].strip())
+                    j += 1
+                t[m.group(1)] = {'name': m.group(1), 'module': mod, 'props': m.group(2).split(','), 'kind': m.group(3),
+                                 'tier': m.group(4) or 'quick', 'doc': ' '.join(doc)}
+    return t
+
+
+def _prop_harnesses():
+    d = {}
+    for h in harness_table().values():
+        for p in h['props']:
+            d.setdefault(p, []).append(h['name'])
+    return d
+
+
+PROP_HARNESSES = _prop_harnesses()
+
+
+def src_path_of(mod):
+    for cand in (os.path.join('src', mod + '.rs'), os.path.join('src', 'indicators', mod + '.rs')):
+        if os.path.exists(os.path.join(REPO, cand)):
+            return cand
+    return None
+
+
+def make_crate(dst):
+    """scratch copy of /repo (sources only) with the harness modules appended"""
+    shutil.copytree(os.path.join(REPO, 'src'), os.path.join(dst, 'src'))
+    for f in ('Cargo.toml', 'Cargo.lock'):
+        shutil.copy(os.path.join(REPO, f), os.path.join(dst, f))
+    for d in ('benches', 'examples', 'tests'):
+        if os.path.isdir(os.path.join(REPO, d)):
+            shutil.copytree(os.path.join(REPO, d), os.path.join(dst, d))
+    os.makedirs(os.path.join(dst, '.cargo'), exist_ok=True)
+    open(os.path.join(dst, '.cargo', 'config.toml'), 'w').write('[net]\noffline = true\n')
+    missing = []
+    for fn in sorted(os.listdir(KDIR)):
+        if not fn.endswith('.rs'):
+            continue
+        sp = src_path_of(fn[:-3])
+        if sp is None:
+            missing.append(fn)
+            continue
+        body = open(os.path.join(KDIR, fn)).read()
+        with open(os.path.join(dst, sp), 'a') as f:
+            f.write('\n#[cfg(kani)]\n#[allow(unused_imports, dead_code)]\nmod verif_kani {\n    use super::*;\n    use crate::errors::TaError;\n    use crate::{Next, Reset, Period, Open, High, Low, Close, Volume};\n' + body + '\n}\n')
+    return missing
+
+
+def tree_hash():
+    h = hashlib.sha256()
+    for root in (os.path.join(REPO, 'src'), KDIR):
+        for dp, dn, fns in sorted(os.walk(root)):
+            dn.sort()
+            for fn in sorted(fns):
+                p = os.path.join(dp, fn)
+                h.update(p.encode())
+                h.update(open(p, 'rb').read())
+    h.update(open(os.path.join(REPO, 'Cargo.toml'), 'rb').read())
+    return h.hexdigest()
+
+
+def parse_output(out, names):
+    """per-harness result from cargo kani's stdout"""
+    res = {}
+    # sections start with "Checking harness <path>..."
+    parts = re.split(r'(?m)^Checking harness ', out)
+    for part in parts[1:]:
+        hname = part.split('...', 1)[0].strip()
+        short = hname.split('::')[-1]
+        status = 'ERROR'
+        m = re.search(r'VERIFICATION:- (\w+)', part)
+        if m:
+            status = m.group(1)
+        tm = re.search(r'Verification Time: ([\d.]+)s', part)
+        nchk = re.search(r'\*\* (\d+) of (\d+) failed', part)
+        failed = re.findall(r'(?m)^Failed Checks: (.*)$', part)
+        covers = re.findall(r'(?m)^ \*\* (\d+) of (\d+) cover properties satisfied', part)
+        unwind = 'unwinding assertion' in ' '.join(failed)
+        res[short] = {'harness': hname, 'status': status, 'time_s': float(tm.group(1)) if tm else None,
+                      'checks_total': int(nchk.group(2)) if nchk else None, 'checks_failed': int(nchk.group(1)) if nchk else None,
+                      'failed_checks': failed[:10], 'covers': covers[0] if covers else None, 'unwind_failure': unwind,
+                      'tail': part[-3000:] if status != 'SUCCESSFUL' else ''}
+    for n in names:
+        res.setdefault(n, {'harness': n, 'status': 'MISSING', 'tail': out[-3000:]})
+    return res
+
+
+def run_harnesses(names, playback=False, timeout=3000):
+    names = sorted(set(names))
+    key = hashlib.sha256((tree_hash() + '|' + ','.join(names)).encode()).hexdigest()
+    cpath = os.path.join(CACHE, key + '.json')
+    if os.path.exists(cpath) and not os.environ.get('VERIF_NO_CACHE') and not playback:
+        r = json.load(open(cpath))
+        r['cache'] = 'hit'
+        return r
+    d = tempfile.mkdtemp(prefix='taverif-kani-')
+    try:
+        missing = make_crate(d)
+        cmd = ['timeout', str(timeout), 'cargo', 'kani', '-Z', 'function-contracts', '-Z', 'stubbing', '-j', '8', '--output-format', 'terse']
+        if playback:
+            cmd += ['-Z', 'concrete-playback', '--concrete-playback=print']
+        for n in names:
+            cmd += ['--harness', n]
+        env = dict(os.environ)
+        env['CARGO_NET_OFFLINE'] = 'true'
+        env['CARGO_TARGET_DIR'] = os.path.join(d, 'target')
+        t0 = time.time()
+        p = subprocess.run(cmd, cwd=d, capture_output=True, text=True, env=env)
+        wall = time.time() - t0
+        out = p.stdout + '\n' + p.stderr
+        r = {'rc': p.returncode, 'wall_s': round(wall, 1), 'cmd': ' '.join(cmd), 'results': parse_output(out, names), 'missing_modules': missing,
+             'cache': 'miss', 'raw_tail': out[-4000:]}
+        if playback:
+            r['raw'] = out
+        if not playback:
+            os.makedirs(CACHE, exist_ok=True)
+            json.dump(r, open(cpath, 'w'))
+        return r
+    finally:
+        shutil.rmtree(d, ignore_errors=True)
 
 
 def lane(pid, tier, cov, ledger, findings, assumptions):
-    return {'violations': [], 'undecided': [], 'known': []}
+    import driver
+    out = {'violations': [], 'undecided': [], 'known': []}
+    table = harness_table()
+    names = [h['name'] for h in table.values() if pid in h['props'] and (tier == 'thorough' or h['tier'] == 'quick')]
+    if not names:
+        return out
+    r = run_harnesses(names)
+    open_f = {(f['property'], f['obligation']): f for f in findings.get('open', [])}
+    n_ob = n_ok = 0
+    samples = []
+    for n in names:
+        h = table[n]
+        res = r['results'].get(n, {'status': 'MISSING'})
+        ob_id = 'kani::%s::%s' % (h['module'], n)
+        n_ob += 1
+        if res['status'] == 'SUCCESSFUL':
+            n_ok += 1
+            samples.append({'obligation': ob_id, 'kind': h['kind'], 'what': h['doc'][:300], 'time_s': res.get('time_s'), 'checks': res.get('checks_total'), 'covers': res.get('covers')})
+            continue
+        if res['status'] == 'FAILED' and not res.get('unwind_failure'):
+            if (pid, ob_id) in open_f:
+                out['known'].append('%s -- %s' % (ob_id, open_f[(pid, ob_id)].get('what', '')))
+                continue
+            if ob_id not in ledger:
+                out['undecided'].append('%s fails but never verified on the baseline tree (not in ledger)' % ob_id)
+                continue
+            pb = run_harnesses([n], playback=True)
+            cex = extract_playback(pb.get('raw', ''))
+            payload = {'property': pid, 'obligation': ob_id, 'lane': 'kani', 'harness': n, 'module': h['module'], 'kind': h['kind'],
+                       'what': h['doc'], 'failed_checks': res.get('failed_checks'), 'verifier_output': res.get('tail', '')[-2500:],
+                       'counterexample': cex, 'replay': 'python3 /verif/check.py --replay <this file>  (runs the concrete values natively against the real code)'}
+            rep = None
+            if cex:
+                rep = native_replay(h, n, cex)
+                payload['native_replay'] = rep
+            path = driver.write_replay(pid, ob_id, payload)
+            out['violations'].append((ob_id, path, bool(cex)))
+            continue
+        out['undecided'].append('%s: kani status %s %s' % (ob_id, res['status'], (res.get('failed_checks') or [''])[0][:120]))
+    cov['obligations'] += n_ob
+    cov['discharged'] += n_ok
+    cov['samples'] += samples[:8]
+    cov['lanes'].append('kani')
+    cov['back_ends']['kani 0.68 / CBMC (bit-precise IEEE-754)'] = {
+        'harnesses': n_ob, 'successful': n_ok, 'wall_s': r.get('wall_s'), 'cache': r.get('cache'),
+        'per_harness': {n: {'status': r['results'][n]['status'], 'time_s': r['results'][n].get('time_s'), 'kind': table[n]['kind'], 'checks': r['results'][n].get('checks_total')} for n in names if n in r['results']},
+        'cmd': r.get('cmd')}
+    bounded = [n for n in names if table[n]['kind'].startswith('bounded')]
+    if bounded:
+        cov['bounded_stand_ins'] = {n: table[n]['kind'] for n in bounded}
+        assumptions.append('Kani harnesses labelled bounded(...) are bounded stand-ins with the stated period bound (all stored values symbolic); they are not unbounded proofs: ' + ', '.join(bounded))
+    assumptions.append('Kani/CBMC/CaDiCaL trusted; Kani harnesses construct states fieldwise from kani::any() (a superset of the reachable states)')
+    return out
+
+
+def extract_playback(raw):
+    """the generated concrete-playback unit test(s), verbatim"""
+    m = re.search(r'(#\[test\]\s*fn kani_concrete_playback_\w+\(\)\s*\{.*?\n\}\n)', raw, re.S)
+    return m.group(1) if m else None
+
+
+def native_replay(h, name, test_src):
+    """compile the concrete-playback test into the scratch crate and run it natively against the real code"""
+    d = tempfile.mkdtemp(prefix='taverif-kanipb-')
+    try:
+        make_crate(d)
+        sp = src_path_of(h['module'])
+        txt = open(os.path.join(d, sp)).read()
+        # put the test inside the harness module (last closing brace)
+        k = txt.rstrip().rfind('}')
+        txt = txt[:k] + '\n' + test_src + '\n}\n'
+        open(os.path.join(d, sp), 'w').write(txt)
+        env = dict(os.environ)
+        env['CARGO_NET_OFFLINE'] = 'true'
+        env['CARGO_TARGET_DIR'] = os.path.join(d, 'target')
+        p = subprocess.run(['timeout', '900', 'cargo', 'kani', 'playback', '-Z', 'concrete-playback', '--', 'kani_concrete_playback'],
+                           cwd=d, capture_output=True, text=True, env=env)
+        out = (p.stdout + p.stderr)
+        return {'rc': p.returncode, 'failed_natively': ('FAILED' in out or 'panicked' in out), 'output_tail': out[-2500:]}
+    finally:
+        shutil.rmtree(d, ignore_errors=True)
 
 
 def replay(p):
-    return 0
+    table = harness_table()
+    h = table.get(p['harness'])
+    if not h:
+        print('harness no longer exists')
+        return 2
+    if p.get('counterexample'):
+        r = native_replay(h, p['harness'], p['counterexample'])
+        print(r['output_tail'])
+        return 1 if r['failed_natively'] else 0
+    r = run_harnesses([p['harness']])
+    print(json.dumps(r['results'], indent=1)[:3000])
+    return 0 if r['results'][p['harness']]['status'] == 'SUCCESSFUL' else 1
